@@ -256,12 +256,25 @@ def generate(rng, tier, i):
                 if ch:
                     ops.append({"op": "chunk_set", "chunk": rng.choice(ch),
                                 "key": gen_tag(rng, used_tags), "val": gen_val(rng)})
-            elif r < 0.68:
+            elif r < 0.66:
                 lp = [o for o in ops if o["op"] == "loop"]
                 if lp:
                     o = rng.choice(lp)
                     ops.append({"op": "loop_set", "loop": o["id"], "key": gen_tag(rng, used_tags),
                                 "col": gen_col(rng, o["n"])})
+            elif r < 0.70:
+                # an operation the library must refuse -- and then be used as if nothing happened
+                lp = [o for o in ops if o["op"] == "loop"]
+                if lp and rng.random() < 0.7:
+                    o = rng.choice(lp)
+                    keys = [c[0] for c in o["cols"]] + [x["key"] for x in ops if x["op"] == "loop_set" and x["loop"] == o["id"]]
+                    key = rng.choice(keys) if rng.random() < 0.6 else gen_tag(rng, used_tags)
+                    ops.append({"op": "loop_set_bad", "loop": o["id"], "key": key,
+                                "col": gen_col(rng, o["n"] + rng.choice([1, 2, -1]) if o["n"] > 1 else o["n"] + 1),
+                                "two_d": rng.random() < 0.2})
+                elif blocks:
+                    ops.append({"op": "block_bad_name", "block": rng.choice(blocks),
+                                "name": rng.choice(["has space", "tab\tname", "line\nbreak"])})
             else:
                 sel = rng.sample(blocks, rng.randrange(1, min(3, len(blocks)) + 1))
                 ops.append({"op": "save_blocks", "blocks": sel, "comment": gen_comment(rng),
@@ -328,8 +341,10 @@ def generate(rng, tier, i):
                 cifs.append(k)
             elif r < 0.8:
                 ops.append({"op": "set_comment", "cif": src, "comment": gen_comment(rng)})
-            elif r < 0.84:
+            elif r < 0.83:
                 ops.append({"op": "set_name", "cif": src, "name": gen_block_name(rng)})
+            elif r < 0.845:
+                ops.append({"op": "cif_bad_name", "cif": src, "name": rng.choice(["has space", "a\tb", "x\ny"])})
             else:
                 ops.append({"op": "save", "cif": src,
                             "via": rng.choice(["method", "method", "save_cif", "save_cif_comment"]),
@@ -593,6 +608,28 @@ class CifEngine(Engine):
                 mod[op["loop"]].cols.append([op["key"], col_to_vals(op["col"])])
                 if op["col"]["t"] == "s":
                     note_strings(*op["col"]["v"])
+            elif o in ("loop_set_bad", "block_bad_name", "cif_bad_name"):
+                if o == "loop_set_bad":
+                    def bad():
+                        col = self._col(op["col"])
+                        if op.get("two_d"):
+                            col = sc.concat([col, col], "extra")
+                        lib[op["loop"]][op["key"]] = col
+                elif o == "block_bad_name":
+                    def bad():
+                        lib[op["block"]].name = op["name"]
+                else:
+                    def bad():
+                        lib[op["cif"]].name = op["name"]
+                _, e_bad = core.capture(bad)
+                ctx.log("op", o, "refused:" + e_bad.name if e_bad else "ACCEPTED")
+                if e_bad is None:
+                    # accepted: nothing in the statement says it must be refused, but the
+                    # reference model cannot follow an invalid object any further
+                    ctx.probe("invalid_operation_accepted")
+                    return
+                ctx.probe("refused_operation_then_continued")
+                continue
             elif o == "cif":
                 res, exc = core.capture(lambda: cif.CIF(op["name"], comment=op["comment"]))
                 lib[op["id"]] = res
@@ -1167,7 +1204,7 @@ def _neutralise_semicolon_lines(scn: dict) -> dict:
 
 def _refs(op) -> set:
     r = set()
-    for key in ("src", "cif", "block", "chunk", "loop"):
+    for key in ("src", "cif", "block", "chunk", "loop"):  # incl. the *_bad ops
         if key in op:
             r.add(op[key])
     if op["op"] == "block":
